@@ -172,6 +172,17 @@ pub fn nest_source(kind: usize, depth: usize, rng: &Rng, d: &Delims) -> String {
                 "{% set a = [x for x in y if x] %}{% continue %}", "{% for a in b %}{% endfor %}{% continue %}", "{% for a in b %}{% else %}{% break %}{% endfor %}",
                 "{% component C() %}{{ [x for x in y] }}{% continue %}{% endcomponent C %}", "{% for a in b %}{% component D() %}{% break %}{% endcomponent D %}{% endfor %}",
                 "{% for a in [x for x in y] %}{% endfor %}{% break %}", "{% filter upper %}{% continue %}{% endfilter %}", "{% block b %}{% break %}{% endblock %}",
+                // comments and raw blocks that look almost right
+                "{% raw x %}a{% endraw %}", "{% raw %}a", "{% raw %}a{% endraw x %}", "{%raw%}a{%endraw%}", "{%- raw-%}a{%-endraw-%}", "{# {% raw %} #}a{% endraw %}", "{% raw %}{# c #}{% endraw %}", "{{ \"{#\" }}", "{{ \"#}\" }}{# c #}",
+                "{# c", "{# c #", "{#", "{% raw %}{% raw %}{% endraw %}{% endraw %}", "{% raw %}{% endraw", "{% raw %}{%", "{% raw", "{# {# nested #} #}", "{#}", "{#{#}#}", "{% raw %}\u{e9}{% endraw %}\u{e9}",
+                // block structure errors
+                "{% block a %}{% block a %}{% endblock %}{% endblock %}", "{% block a %}{% endblock %}{% block a %}{% endblock %}", "{% block a %}{% endblock b %}", "{% block %}{% endblock %}", "{% block if %}{% endblock %}",
+                "{% block 1 %}{% endblock %}", "{% block \"a\" %}{% endblock %}", "{% for x in y %}{% block a %}{% endblock %}{% endfor %}", "{% if x %}{% block a %}{% endblock %}{% endif %}",
+                "{% component Cb() %}{% block a %}{% endblock %}{% endcomponent Cb %}", "{% block \u{e9} %}{% endblock %}", "{% block a %}{% block b %}{% endblock a %}{% endblock b %}", "{% block a %}{% endblock a b %}", "{% block a b %}{% endblock %}",
+                "{% block a %}{% endblock %}{% block b %}{% endblock %}{% block c %}{% endblock %}{% block d %}{% endblock %}{% block e %}{% endblock %}{% block f %}{% endblock %}{% block g %}{% endblock %}{% block h %}{% endblock %}{% block b %}{% endblock %}",
+                "{% extends \"x\" %}{% block a %}{% block a %}{{ super() }}{% endblock %}{% endblock %}", "{% block a %}", "{% block a %}{% endblock",
+                "{% block a %}{% block b %}x{% endblock %}{% endblock b %}", "{% block a %}{% block b %}{% endblock b %}{% endblock b %}", "{% block a %}{% endblock %}{% block c %}{% endblock a %}",
+                "{% block a %}{% block b %}{% block c %}{% endblock %}{% endblock %}{% endblock c %}", "{% block a %}{% block b %}{% endblock %}{% block c %}{% endblock b %}{% endblock %}", "{% block a %}{% endblock a %}{% endblock a %}",
                 // whitespace-control markers next to things made of dashes
                 "{%--%}", "{{--1}}", "{{- -1 -}}", "{{- -}}", "{#--#}", "{#- -#}", "{%- raw -%}-{%- endraw -%}", "-", "---", "{{-1}}", "{{ 1 -}}-{{- 1 }}", "{%-if true-%}-{%-endif-%}", "{{--}}", "{%-%}",
                 // unknown and legacy tag names, stray closers, empty tags
